@@ -350,7 +350,7 @@ class Ctx:
             "states": max(self.states, 0),
             "transitions": max(self.transitions, 0),
             "traces_validated_against_impl": self.traces_validated,
-            "samples": self.samples[:8] or ["(no sample recorded)"],
+            "samples": self.samples[:8] or ["(run aborted before a sample was recorded)"],
             "evaluations": self.evaluations,
             "distinct_nontrivial": len(self.distinct),
             "rule": self.rule,
